@@ -2,6 +2,7 @@ package main
 
 import (
 	"fmt"
+	"os"
 	"path/filepath"
 	"sort"
 
@@ -261,7 +262,10 @@ func genC18(cs *CaseSet, rng *Rng, tier string, dir string) {
 				}
 				items = keep
 				sawDelete = true
-			case r == 11: // restart
+			case r == 11: // restart (every other one after a crash inside a save: its truncated temporary file is still there)
+				if rng.Bool() {
+					must(os.WriteFile(filepath.Join(env.Cfg, "ThreadedNews.yaml.tmp"), []byte("Categories:\n  x:\n    Na"), 0644))
+				}
 				fresh, err := mobius.NewThreadedNewsYAML(filepath.Join(env.Cfg, "ThreadedNews.yaml"))
 				if err != nil {
 					continue
